@@ -9,6 +9,7 @@ cannot change behaviour:
   T2  every private method of the package (`_name`, not dunder) gets a new name, at its definition and at every `x._name` use;
   T4  (--attrs old=new,...) data attributes of the stores that the repository's tests do not pin are renamed everywhere
       (reserved_items, reserved_events, ready_items): the monitors may become INCONCLUSIVE, they must not report violations;
+  T5  (--direct-events) the stores create their tokens with simpy.Event(env) instead of env.event();
   T3  a few well-known locals / private attributes of the node classes get unrelated names (item -> fi, pallet -> pl,
       item_in_process -> cur_item, ...), the renaming a maintainer would do by hand.
 The repository's 70 tests must still pass on the rewritten tree; then every engine runs a reduced pass with all monitors on.
@@ -23,6 +24,7 @@ HAND = {"item": "fi", "pallet": "pl", "item_to_push": "obj", "item_in_process": 
         "worker_thread_req": "wreq", "req_token": "rq"}
 
 
+DIRECT_EVENTS = False
 ATTRS = {}     # T4 (option --attrs a=b,...): data attributes of the stores renamed everywhere, e.g. reserved_items=bound_items
 
 
@@ -119,6 +121,10 @@ def main():
         i = args.index("--attrs")
         ATTRS.update(dict(a.split("=") for a in args[i + 1].split(",")))
         del args[i:i + 2]
+    global DIRECT_EVENTS
+    if "--direct-events" in args:
+        DIRECT_EVENTS = True
+        args.remove("--direct-events")
     scale = float(args[0]) if args else 0.25
     tmp = tempfile.mkdtemp(prefix="refprobe.")
     rc = 0
@@ -135,6 +141,16 @@ def main():
             t2 = rw.visit(t)
             ast.fix_missing_locations(t2)
             open(p, "w").write(ast.unparse(t2))
+        if DIRECT_EVENTS:
+            # T5: the stores create their reservation tokens with simpy.Event(env) instead of env.event()
+            for p in files:
+                if os.sep + "base" + os.sep in p:
+                    src = open(p).read()
+                    if "self.env.event()" in src:
+                        src = src.replace("self.env.event()", "simpy.Event(self.env)")
+                        if "import simpy" not in src:
+                            src = "import simpy\n" + src
+                        open(p, "w").write(src)
         print(f"rewrote {len(files)} files; {len(priv)} private methods renamed", flush=True)
         env = dict(os.environ, PYTHONPATH=os.path.join(tmp, "src"), PYTHONHASHSEED="0", PYTHONDONTWRITEBYTECODE="1")
         t = subprocess.run([PY, "-m", "pytest", "-q", "-p", "no:cacheprovider", "--timeout=300", "--continue-on-collection-errors", "tests"],
